@@ -4,7 +4,7 @@
    operator on ALL operands and all shift amounts 0..SMAX.  One state per x; the
    invariants quantify over y / carry / amount. *)
 EXTENDS Naturals, Integers, Sequences, TLC
-CONSTANTS SMAX
+CONSTANTS SMAX, YSTEP
 B == INSTANCE BV
 W == INSTANCE W32 WITH L <- 4
 VARIABLES x
@@ -16,6 +16,7 @@ V(w) == w[1] * 16 + w[2]
 K(v) == <<v \div 16, v % 16>>
 QV(q) == ((q[1] * 16 + q[2]) * 16 + q[3]) * 16 + q[4]
 Act == x >= 0
+YS == {y \in 0..255 : y % YSTEP = 0 \/ y \in {1, 15, 16, 17, 127, 128, 129, 254, 255}}
 
 AddOK == Act => \A y \in 0..255, c \in {0, 1} :
    LET r == W!AddC(K(x), K(y), c) IN
@@ -50,7 +51,7 @@ SliceOK == Act =>
    /\ W!LowestSetBitW(K(x)) = B!LowestSetBit(x, 8)
    /\ \A i \in 0..7 : W!Bit(W!RBITw(K(x)), i) = B!Bit(x, 7 - i)
    /\ W!IsWord(K(x)) /\ ~W!IsWord(<<x, 16>>) /\ ~W!IsWord(<<-1, 0>>)
-MulDivOK == Act => \A y \in 0..255 :
+MulDivOK == Act => \A y \in YS :
    /\ QV(W!MulUU(K(x), K(y))) = x * y
    /\ QV(W!MulSS(K(x), K(y))) = (B!SInt(x, 8) * B!SInt(y, 8)) % 65536
    /\ V(W!MulLo(K(x), K(y))) = (x * y) % 256
@@ -61,7 +62,7 @@ MulDivOK == Act => \A y \in 0..255 :
                      ay == IF sy < 0 THEN -sy ELSE sy
                      q  == IF (sx < 0) # (sy < 0) THEN -(ax \div ay) ELSE ax \div ay
                  IN V(W!SDiv(K(x), K(y))) = q % 256
-QuadOK == Act => \A y \in 0..255 : \A z \in {0, 1, 15, 16, 127, 128, 255} :
+QuadOK == Act => \A y \in YS : \A z \in {0, 1, 15, 16, 127, 128, 255} :
    LET p == <<x \div 16, x % 16, y \div 16, y % 16>>
        q == <<z \div 16, z % 16, x \div 16, x % 16>> IN
    /\ QV(W!QAdd(p, q)) = (QV(p) + QV(q)) % 65536
